@@ -410,6 +410,13 @@ func (sbPerturb) Handle(_ context.Context, r slog.Record) error {
 	return nil
 }
 
+// sbPerturbPoint lets the fake runner's methods act as additional perturbation points.
+func sbPerturbPoint(msg string) {
+	if sbPerturbSeed.Load() != 0 {
+		sbPerturb{}.Handle(context.Background(), slog.Record{Message: msg})
+	}
+}
+
 // ------------------------------------------------------------------------------------- watchdog
 
 var sbHdr = regexp.MustCompile(`(?m)^goroutine (\d+) \[([^\]]+)\]:`)
